@@ -190,11 +190,67 @@ def check_dateutil(key, naive):
     return None
 
 
+def process_tz_cases():
+    """UTC values must not depend on the time zone of the PROCESS (TZ environment variable): the same checks on UTC text, naive input to
+    the UTC properties and zoned values, run under TZ=America/New_York and TZ=Asia/Kolkata (restored afterwards)"""
+    import os
+    import time as _time
+    import icalendar
+    from icalendar import Event, Alarm
+    out = []
+    saved = os.environ.get("TZ")
+    try:
+        for tzname in ("America/New_York", "Asia/Kolkata"):
+            os.environ["TZ"] = tzname
+            _time.tzset()
+            for prov in ("zoneinfo", "pytz"):
+                icalendar.timezone.tzp.use(prov)
+                try:
+                    ev = Event.from_ical("BEGIN:VEVENT\r\nDTSTART:20240615T120000Z\r\nRDATE:20240616T120000Z,20240617T120000Z\r\n"
+                                         "DTSTAMP:20240101T000000Z\r\nFREEBUSY:20240615T120000Z/PT1H\r\nEND:VEVENT\r\n")
+                    want = datetime(2024, 6, 15, 12, 0, tzinfo=timezone.utc)
+                    got = ev["DTSTART"].dt
+                    if got != want or got.utcoffset() != timedelta(0) or got.replace(tzinfo=None) != want.replace(tzinfo=None):
+                        out.append(f"[{prov}, TZ={tzname}] DTSTART:20240615T120000Z parses to {got!r}")
+                    got = ev["RDATE"].dts[0].dt
+                    if got.replace(tzinfo=None) != datetime(2024, 6, 16, 12, 0) or got.utcoffset() != timedelta(0):
+                        out.append(f"[{prov}, TZ={tzname}] RDATE:20240616T120000Z parses to {got!r}")
+                    got = ev["FREEBUSY"].dt[0]
+                    if got.replace(tzinfo=None) != datetime(2024, 6, 15, 12, 0) or got.utcoffset() != timedelta(0):
+                        out.append(f"[{prov}, TZ={tzname}] FREEBUSY:20240615T120000Z/PT1H starts at {got!r}")
+                    if ev.DTSTAMP != datetime(2024, 1, 1, tzinfo=timezone.utc) or ev.DTSTAMP.utcoffset() != timedelta(0):
+                        out.append(f"[{prov}, TZ={tzname}] DTSTAMP:20240101T000000Z reads as {ev.DTSTAMP!r}")
+                    # naive input to a UTC property is taken as UTC, zoned input keeps its instant
+                    e2 = Event()
+                    e2.add("dtstamp", datetime(2024, 6, 15, 14, 0))
+                    if b"DTSTAMP:20240615T140000Z" not in e2.to_ical():
+                        out.append(f"[{prov}, TZ={tzname}] add('dtstamp', naive 14:00) is written as {[l for l in e2.to_ical().split(bytes([13, 10])) if l.startswith(b'DTSTAMP')]}")
+                    al = Alarm()
+                    al.ACKNOWLEDGED = localise(prov, datetime(2024, 6, 15, 14, 0), "Europe/Berlin")
+                    if al.ACKNOWLEDGED != datetime(2024, 6, 15, 12, 0, tzinfo=timezone.utc) or b"ACKNOWLEDGED:20240615T120000Z" not in al.to_ical():
+                        out.append(f"[{prov}, TZ={tzname}] ACKNOWLEDGED set to Berlin 14:00 reads as {al.ACKNOWLEDGED!r}")
+                    msg = check_value(prov, "Europe/Berlin", datetime(2024, 6, 15, 14, 0))
+                    if msg:
+                        out.append(f"[{prov}, TZ={tzname}] {msg}")
+                finally:
+                    icalendar.timezone.tzp.use_default()
+    finally:
+        if saved is None:
+            os.environ.pop("TZ", None)
+        else:
+            os.environ["TZ"] = saved
+        _time.tzset()
+    return out
+
+
 def run(b, tier, seed, findings, known_seen):
     import icalendar
     rnd = random.Random(seed)
     fails = []
     cases = 0
+    for m in process_tz_cases():
+        fails.append({"witness": {"process_tz": True}, "detail": m})
+    cases += 28
     provs = ["zoneinfo", "pytz"]
     keys_zi = all_keys("zoneinfo")
     for prov in provs:
@@ -253,6 +309,9 @@ def match(f, findings):
 
 def replay_witness(w):
     import icalendar
+    if w.get("process_tz"):
+        r = process_tz_cases()
+        return r[0] if r else None
     prov = w.get("provider", "zoneinfo")
     icalendar.timezone.tzp.use(prov)
     try:
@@ -273,6 +332,9 @@ def search_for(oid):
     """native confirmation of a shape refutation: a quick sweep of the ALWAYS zones"""
     import icalendar
     rnd = random.Random(0)
+    ptz = process_tz_cases()
+    if ptz:
+        return {"process_tz": True}, ptz[0]
     for prov in ("zoneinfo", "pytz"):
         icalendar.timezone.tzp.use(prov)
         try:
